@@ -519,8 +519,8 @@ func replayCex(cf *cexFile, cexPath, outDir string) replayResult {
 			if strings.Contains(line, "panic=") && !strings.Contains(line, "panic=<nil>") {
 				return replayResult{Reproduced: true, Detail: line}
 			}
-			if line == "" && strings.Contains(out, "panic:") {
-				return replayResult{Reproduced: true, Detail: firstLines(out, "panic:", 3)}
+			if strings.Contains(out, "\npanic: ") || strings.HasPrefix(out, "panic: ") {
+				return replayResult{Reproduced: true, Detail: firstLines(out, "panic: ", 3)}
 			}
 		case "deadlock":
 			if strings.HasPrefix(line, "VERIF-REPLAY hang") {
